@@ -80,6 +80,17 @@ def gen_C16(g, tier):
             else:
                 vals = g.rats(nvals)
             cs.append(Case('%s %s' % (head, frs(vals)), 'cmp', tag, check=halves_equal))
+    # containers of Estimate (elements with their own copy semantics): implementation oracle, aliased call against copy
+    for rep in range(reps):
+        for op in ('mul', 'div'):
+            for n in (2, 3, 4):
+                for k in range(n + 1):
+                    vals = [g.nz() if i % 2 == 0 else abs(g.nz()) for i in range(2 * n + 2 * (k == n))]
+                    cs.append(Case('o.c16.vecE %d %s %d %s' % (n, op, k, frs(vals)), 'orc', 'vec-of-estimate-' + ('distinct' if k == n else 'element'), check=halves_equal))
+            for k in range(5):
+                vals = [g.nz() if i % 2 == 0 else abs(g.nz()) for i in range(8 + 2 * (k == 4))]
+                cs.append(Case('o.c16.stokesE %s %d %s' % (op, k, frs(vals)), 'orc', 'stokes-of-estimate-' + ('distinct' if k == 4 else 'element'), check=halves_equal))
+                cs.append(Case('o.c16.matE %s %d %s' % (op, k, frs(vals)), 'orc', 'matrix-of-estimate-' + ('distinct' if k == 4 else 'element'), check=halves_equal))
     return cs
 
 
